@@ -18,7 +18,7 @@ from fractions import Fraction
 
 import numpy as np
 
-from . import core, kexpr
+from . import core, forms, kexpr
 from .tlc import MachineryError, write_cfg
 from .xreal import to_float, to_fraction
 
@@ -160,6 +160,13 @@ def run(ctx: core.Ctx):
                 ref = S if form == "1d" else np.concatenate([S, S]).reshape(2, -1)
                 if A.shape != ref.shape or not np.allclose(A, ref, rtol=0, atol=1e-15, equal_nan=True):
                     ctx.violation(f"{k}.membership/array-{form}", {"k": k, "p": cases[0]["p"], "h": cases[0]["h"], "palette": palette}, ref.tolist(), A.tolist(), note="array evaluation differs from element-by-element evaluation")
+            # other forms of the same argument: read-only, views with strides, a column, 3-D
+            if palette == "dyadic" or hash((k, tuple(p))) % 4 == 0:
+                forms.check(ctx, f"{k}.membership", {"k": k, "p": cases[0]["p"], "h": cases[0]["h"], "palette": palette}, term.membership, X, S, exact32=True)
+            if palette == "dyadic":
+                forms.check_int(ctx, f"{k}.membership", {"k": k, "p": cases[0]["p"], "h": cases[0]["h"], "palette": palette}, term.membership, X)
+            if palette == "decimal" and hash((k, tuple(p))) % 3 == 0:
+                forms.check_float32(ctx, f"{k}.membership", {"k": k, "p": cases[0]["p"], "h": cases[0]["h"], "palette": palette}, term.membership, X[np.isfinite(X)])
             # batches of length one keep their shape
             for sh in ((1,), (1, 1)):
                 one = np.full(sh, xs[len(xs) // 2])
